@@ -388,9 +388,16 @@ class SafeLearner(Learner):
         #it allows us to "is" checks to see if a returned value "is" one of the actions
         if self._prev_actions != actions:
             self._prev_actions = actions
-            all_safe = 0 not in actions and 1 not in actions
+            is_safe   = lambda A: not A or not hasattr(A,'__iter__') or (0 not in A and 1 not in A)
             make_safe = lambda a: float(a) if a in [0,1] else a
-            self._safe_actions = actions if all_safe else [ make_safe(a) for a in actions]
+            safe_row  = lambda A: A if is_safe(A) else [ make_safe(a) for a in A]
+            if not is_batch(actions):
+                self._safe_actions = safe_row(actions)
+            elif all(map(is_safe,actions)):
+                self._safe_actions = actions
+            else:
+                class Batch(list): is_batch=True
+                self._safe_actions = Batch(map(safe_row,actions))
 
         pred = self._safe_call('predict', self.learner.predict, (context,self._safe_actions))
         return self._parse_pred(context, self._safe_actions, pred)
